@@ -78,7 +78,7 @@ func (tw *TimeWheel) Start() {
 // 此处旧版本连接数大的时候资源占用比较多
 func (tw *TimeWheel) start() {
 	for {
-		time.Sleep(tw.tick)
+		twSleep(tw.tick)
 		count := 0
 		// 取不到数据或者处理 count 超过 16 * 1024 退出
 		for count >= 0 && count < 16*1024 {
